@@ -131,6 +131,9 @@ type vworldOpts struct {
 	Repeat int      `json:"repeat"`           // > 0: create + unpack the whole config this many more times (C09)
 	Names  []string `json:"names,omitempty"`  // the settings to read (default: the names of Gen_VarExp's world)
 	Fields []vfield `json:"fields,omitempty"` // one Unpack into a struct with these fields (Gen_VarMixed)
+	// the Env option is handed a CHILD of every environment tree (a section `zsub` added for the purpose): an environment
+	// is the whole tree its argument belongs to, so nothing changes
+	EnvChild bool `json:"-"`
 }
 
 type vfield struct {
@@ -167,9 +170,18 @@ func (w *vworld) build(wo vworldOpts) (*ucfg.Config, []ucfg.Option, error) {
 	}
 	opts := append([]ucfg.Option{}, base...)
 	for _, e := range w.Envs {
-		ec, err := ucfg.NewFrom(e.toGo(), base...)
+		eg := e.toGo()
+		if em, isMap := eg.(map[string]interface{}); isMap && wo.EnvChild {
+			em["zsub"] = map[string]interface{}{"zq": "1"}
+		}
+		ec, err := ucfg.NewFrom(eg, base...)
 		if err != nil {
 			return nil, nil, err
+		}
+		if _, isMap := eg.(map[string]interface{}); isMap && wo.EnvChild {
+			if ec, err = ec.Child("zsub", -1); err != nil {
+				return nil, nil, err
+			}
 		}
 		opts = append(opts, ucfg.Env(ec))
 	}
@@ -241,11 +253,14 @@ func varErrClass(err error) string {
 }
 
 type readObs struct {
-	Name  string                 `json:"name"`
-	SF    map[string]interface{} `json:"sf"` // Unpack into a string-typed struct field (the value is evaluated twice in one call)
-	Str   map[string]interface{} `json:"str"`
-	Typed map[string]interface{} `json:"typed"`
-	Has   map[string]interface{} `json:"has"`
+	Name string                 `json:"name"`
+	SF   map[string]interface{} `json:"sf"` // Unpack into a string-typed struct field (the value is evaluated twice in one call)
+	Str  map[string]interface{} `json:"str"`
+	// String() of a top-level name by a reader that passes NO path separator: the names inside the expressions were
+	// split when the setting was created, the reader's separator only applies to the name it asks for
+	StrNoSep map[string]interface{} `json:"str_nosep,omitempty"`
+	Typed    map[string]interface{} `json:"typed"`
+	Has      map[string]interface{} `json:"has"`
 }
 
 type varObs struct {
@@ -258,6 +273,8 @@ type varObs struct {
 	UnpackAll []map[string]interface{} `json:"unpack_all,omitempty"`
 	Flat      string                   `json:"flat"`
 	Extra     string                   `json:"extra,omitempty"`
+	// a read that differs when the Env option is given a child of the environment tree instead of its root
+	EnvChild string `json:"env_child,omitempty"`
 }
 
 var varReadNames = []string{"a", "b", "c", "n.k", "n", "m", "l.0", "l.1.x"}
@@ -279,6 +296,13 @@ func observeWorld(w *vworld, withFlat bool, wo vworldOpts) (o varObs) {
 			r.Str = map[string]interface{}{"err": varErrClass(err)}
 		} else {
 			r.Str = map[string]interface{}{"ok": s}
+		}
+		if !strings.Contains(n, ".") {
+			if s, err := c.String(n, -1, opts[1:]...); err != nil { // opts[0] is the separator
+				r.StrNoSep = map[string]interface{}{"err": varErrClass(err)}
+			} else {
+				r.StrNoSep = map[string]interface{}{"ok": s}
+			}
 		}
 		st := reflect.New(reflect.StructOf([]reflect.StructField{{Name: "F", Type: tIface,
 			Tag: reflect.StructTag(`config:"` + n + `"`)}}))
@@ -303,6 +327,25 @@ func observeWorld(w *vworld, withFlat bool, wo vworldOpts) (o varObs) {
 		c.CountField(n, opts...)
 		c.Child(n, -1, opts...)
 		o.Reads = append(o.Reads, r)
+	}
+	if len(w.Envs) > 0 && wo.Split == 0 {
+		wc := wo
+		wc.EnvChild = true
+		if c2, opts2, err := w.build(wc); err != nil {
+			o.EnvChild = "build: " + err.Error()
+		} else {
+			for i, n := range names {
+				var got map[string]interface{}
+				if s, err := c2.String(n, -1, opts2...); err != nil {
+					got = map[string]interface{}{"err": varErrClass(err)}
+				} else {
+					got = map[string]interface{}{"ok": s}
+				}
+				if !reflect.DeepEqual(got, o.Reads[i].Str) && o.EnvChild == "" {
+					o.EnvChild = fmt.Sprintf("String(%q) = %v with Env(child of the tree), %v with Env(root of the tree)", n, got, o.Reads[i].Str)
+				}
+			}
+		}
 	}
 	unpackWhole := func(c *ucfg.Config, opts []ucfg.Option) map[string]interface{} {
 		var m map[string]interface{}
@@ -587,6 +630,10 @@ func varReplay(args []string) int {
 			rep.violate("build", raw, string(resp), "the configuration is accepted", "")
 			return
 		}
+		if o.EnvChild != "" {
+			rep.violate("env-given-as-child", raw, o.EnvChild, "an environment is the whole tree the Env option's argument belongs to", "")
+			return
+		}
 		if c.Amb {
 			// ${x:+..} on a name under evaluation: only termination is decided (see Gen_VarExp)
 			rep.skip()
@@ -604,6 +651,11 @@ func varReplay(args []string) int {
 			ok = rep.classify(raw, r.Str.Ideal, r.Str.Alts, eqText(g.Str), func() interface{} {
 				return map[string]interface{}{"String": r.Name, "got": g.Str}
 			}, "string") && ok
+			if g.StrNoSep != nil {
+				ok = rep.classify(raw, r.Str.Ideal, r.Str.Alts, eqText(g.StrNoSep), func() interface{} {
+					return map[string]interface{}{"String, reader without PathSep": r.Name, "got": g.StrNoSep}
+				}, "string-reader-without-separator") && ok
+			}
 			// a string-typed field: the text String() gives; an absent setting leaves the field ""; a
 			// sub-config is an error (of whatever class)
 			sfEq := func(exp json.RawMessage) bool {
